@@ -21,6 +21,7 @@ from fractions import Fraction as Fr
 
 from verifkit.absrun import Obj, Runner, StandIn
 from verifkit.core import Outcome
+from verifkit.known_names import is_new_helper
 from verifkit.finite import Undecided, Raised
 from rules import C10, C17
 
@@ -833,7 +834,7 @@ def r18_12(ctx):
                 calls = [c] + ([made_by[c.func.id]] if isinstance(c.func, ast.Name) and c.func.id in made_by else [])
                 for cc in calls:
                     for t in inf.targets(cc, ("call",)):
-                        if t.mod == "curve" and t.name.startswith("_") and not t.name.endswith("__") and t.qname != fn.qname \
+                        if t.mod == "curve" and (t.name.startswith("_") or is_new_helper(t.name)) and not t.name.endswith("__") and t.qname != fn.qname \
                                 and t.qname not in seen:
                             seen.add(t.qname)
                             out_.append(t)
